@@ -912,6 +912,8 @@ def run(ctx: common.Ctx):
     check_materialized(ctx, t, cases)
     check_misc(ctx, t, cases)
     check_dependency_mappers(ctx, cases)
+    from . import c20_options
+    c20_options.check_options(ctx)
     for th in THEOREMS[:4]:
         ctx.sample({"theorem": th})
     ctx.sample({"graph": cases[-3].spec, "nodes": len(cases[-3].v.nodes)})
